@@ -114,7 +114,9 @@ impl Sys {
     fn replay(&self, it: &mut Interp, m: &mut Machine, history: &[u16]) {
         for f in &self.setup {
             let o = it.eval(&f.to_string());
-            assert!(matches!(o, Outcome::Val(_)), "setup failed on the implementation: {} => {}", f, o);
+            if !matches!(o, Outcome::Val(_)) {
+                crate::drive::impl_fail(&format!("the setup form {} => {}", f, o));
+            }
             m.eval_top(f).expect("reference setup");
         }
         for o in history {
@@ -171,7 +173,7 @@ pub struct Worker {
 impl System for Sys {
     type Worker = Worker;
     fn new_worker(&self) -> Worker {
-        Worker { it: Interp::new().expect("interpreter") }
+        Worker { it: Interp::must_new() }
     }
     fn n_ops(&self) -> usize {
         self.ops.len()
@@ -188,7 +190,7 @@ impl System for Sys {
     fn step(&self, w: &mut Worker, history: &[u16], op: u16) -> StepResult {
         let mut fresh_it;
         let it: &mut Interp = if self.fresh {
-            fresh_it = Interp::new().expect("interpreter");
+            fresh_it = Interp::must_new();
             &mut fresh_it
         } else {
             w.it.fresh_frame();
